@@ -61,7 +61,9 @@ def handle : List String → String
     match (if objs == "-" then some [] else (objs.splitOn ";").mapM parseObj) with
     | none => "bad-op"
     | some os =>
-      match parseObjects Gen.Parsers.accessRights Gen.Parsers.cosemInterfaces os with
+      -- the rights C15 demands (the bits that are set), not the graph regenerated from the code: when the code's graph
+      -- differs (C15_rights no longer builds) the correspondence then exhibits the access mode on which it does
+      match parseObjects ((List.range 256).map fun mode => (List.range 8).filter fun b => mode.testBit b) Gen.Parsers.cosemInterfaces os with
       | .ok out => "ok " ++ ";".intercalate (out.map showObj)
       | .error e => "err " ++ e.name
   | _ => "bad-op"
